@@ -1,0 +1,19 @@
+//go:build verif
+
+package metadatapart
+
+import (
+	"github.com/jdillenkofer/pithos/internal/storage"
+	"github.com/jdillenkofer/pithos/internal/storage/metadatapart/gc"
+	"github.com/jdillenkofer/pithos/internal/storage/metadatapart/partstore"
+)
+
+// PartGCOf exposes the garbage collector of a metadata/part storage (verification harness only).
+func PartGCOf(s storage.Storage) gc.PartGarbageCollector {
+	return s.(*metadataPartStorage).partGC
+}
+
+// PartStoresOf exposes the named part stores of a metadata/part storage (verification harness only).
+func PartStoresOf(s storage.Storage) *partstore.NamedPartStores {
+	return s.(*metadataPartStorage).partStores
+}
